@@ -7,6 +7,7 @@ import (
 	"fmt"
 	"math/rand"
 	"os"
+	"strings"
 
 	clipper "github.com/bolom009/go-clipper2"
 )
@@ -49,6 +50,15 @@ func main() {
 		}
 		w.close()
 		fmt.Printf("EVENTS %d\n", w.n)
+	case "replay-life":
+		fs := flag.NewFlagSet("replay-life", flag.ExitOnError)
+		in := fs.String("in", "", "TLC output with HIST lines")
+		out := fs.String("out", "trace.ndjson", "output file")
+		fs.Parse(os.Args[2:])
+		w := newWriter(*out)
+		n := replayLifeFile(rand.New(rand.NewSource(1)), *in, w)
+		w.close()
+		fmt.Printf("HISTORIES %d EVENTS %d\n", n, w.n)
 	case "shrink":
 		b, err := os.ReadFile(os.Args[2])
 		if err != nil {
@@ -60,12 +70,33 @@ func main() {
 	}
 }
 
+// chkOverride: "ARGS:<driver>" / "DET:<driver>" run a driver's workload but enforce only the
+// input-immutability (C12) or bit-identical-repetition (C17) clause.
+var chkOverride []string
+
+func chkFor(def ...string) []string {
+	if chkOverride != nil {
+		return chkOverride
+	}
+	return def
+}
+
 func drive(prop string, r *rand.Rand, w *writer, n int) {
+	if i := strings.Index(prop, ":"); i > 0 {
+		chkOverride = []string{prop[:i]}
+		prop = prop[i+1:]
+	}
 	switch prop {
 	case "C01":
 		driveBool(r, w, n, []string{"C01"})
 	case "C02":
 		driveBool(r, w, n, []string{"C02", "UNI"})
+	case "C19":
+		driveGroup(r, w, n, false)
+	case "C19L":
+		driveGroup(r, w, n, true)
+	case "C17":
+		driveVariants(r, w, n)
 	case "C14":
 		driveMeasure(r, w, n)
 	case "C15":
@@ -110,6 +141,24 @@ func reexec(b []byte, w *writer) {
 		}
 		old := e.Probes
 		execRect(r, &e)
+		e.Probes = mergeProbes(e.Probes, old)
+		w.emit(&e)
+	case "BoolGroup":
+		var e GroupEv
+		if err := json.Unmarshal(b, &e); err != nil {
+			fatal(err)
+		}
+		old := e.Probes
+		execGroup(r, &e)
+		e.Probes = mergeProbes(e.Probes, old)
+		w.emit(&e)
+	case "BoolVariants":
+		var e VariantsEv
+		if err := json.Unmarshal(b, &e); err != nil {
+			fatal(err)
+		}
+		old := e.Probes
+		execVariants(r, &e)
 		e.Probes = mergeProbes(e.Probes, old)
 		w.emit(&e)
 	case "Measure":
